@@ -65,6 +65,14 @@ def run(ctx):
         cs, _ = ind.candles_for(r, 400 if ctx.tier == "quick" else 1200)   # beyond 255 steps: position counters
         for sets in ind.configs(t, r, 1 if ctx.tier == "quick" else 3):
             cases.append(ICase(t["config"], "run", sets, cs[0], cs[1:], kind="indicator"))
+        # every length parameter at the top of the 8-bit range (253, 254): arithmetic on the parameter that saturates or wraps in
+        # u8 (period + 1, period * 2, ...) gives another instance than the wide builds although the parameter fits
+        for f in t["fields"]:
+            if not f["public"] or f["ty"] not in ("PeriodType", "M"):
+                continue
+            for top in ("254", "253"):
+                v = top if f["ty"] == "PeriodType" else "sma-" + top
+                cases.append(ICase(t["config"], "run", [(f["name"], v)], cs[0], cs[1:], kind="indicator-top-of-u8"))
     lines = [c.line() for c in cases]
     base, _ = core.run_harness_robust(lines, "debug", ())
     for feats in wide_feats(ctx):
@@ -77,6 +85,12 @@ def run(ctx):
                 continue
             if "unsafe_performance" in feats and (T_PANIC in x or x == [-4]):
                 continue    # C19's quantifier: the unchecked build is only specified on programs on which the default build does not panic
+            if getattr(c, "kind", "") == "indicator-top-of-u8":
+                # a combined constraint (left + right < MAX, period * 2 - 1 <= MAX) may exclude the top of the 8-bit range only in
+                # the 8-bit build: that is the capacity the width buys, not a behavioural difference; compare accepted instances only
+                px = ind.parse(x, len(c.sets))
+                if px.panic_in_set or px.valid != 1 or px.init != 0:
+                    continue
             if x != y:
                 nd += 1
                 k = core.first_diff(x, y)
